@@ -440,3 +440,92 @@ def rf2(run, units=('mir', 'gen', 'c2mir')):
             if not ok:
                 run.violation(rule, f, 'local container %s' % name, 'the container %s created in %s is not destroyed on every path to the '
                               'function\'s exit and is not handed to anyone' % (name, f.name), line=n['l'])
+
+
+# ---------------------------------------------------------------------------------------------
+# RF27 ownership of elements stored in hash tables that have a free function
+# ---------------------------------------------------------------------------------------------
+
+def rf27(run, units=('mir', 'c2mir')):
+    rule = 'RF27'
+    run.rule(rule, 'a hash table created with a free function owns what that function releases: every element inserted into or '
+                   'replacing an element of such a table carries freshly created storage for the released fields (a shared vector '
+                   'would be destroyed with the replaced element and again at finish)')
+    n = 0
+    for u in units:
+        tu = run.tu(u)
+        for f in tu.func_list:
+            for c in f.walk():
+                if not (c['k'] == 'CallExpr' and (c.get('callee') or '').startswith('HTAB_') and 'create' in c['callee']):
+                    continue
+                fns = [F.strip(a)['n'] for a in F.call_args(c) if F.strip(a)['k'] == 'DeclRefExpr' and F.strip(a).get('dk') == 'func']
+                if len(fns) < 3:
+                    continue
+                tab = F.src(F.call_args(c)[0]).lstrip('&')
+                ff = tu.funcs.get(fns[2])
+                if ff is None:
+                    continue
+                # what the free function releases: fields destroyed, or the element pointer itself
+                owned = set()
+                whole = False
+                p0 = ff.params[0]['n']
+                for x in ff.walk():
+                    if x['k'] == 'CallExpr' and (DES.match(x.get('callee') or '') or x.get('callee') in ('MIR_free', 'free')):
+                        a = F.strip(F.call_args(x)[-1] if x.get('callee') in ('MIR_free', 'free') else F.call_args(x)[0])
+                        if a['k'] == 'UnaryOperator' and a['op'] == '&':
+                            a = F.strip(a['c'][0])
+                        if a['k'] == 'MemberExpr' and F.src(F.strip(a['c'][0])) == p0:
+                            owned.add(a['n'])
+                        elif a['k'] == 'DeclRefExpr' and a['n'] == p0:
+                            whole = True
+                # every insertion / replacement into this table
+                for g in tu.func_list:
+                    for d in g.walk():
+                        if not (d['k'] == 'CallExpr' and (d.get('callee') or '').startswith('HTAB_') and d['callee'].endswith('_do')):
+                            continue
+                        args = F.call_args(d)
+                        if len(args) < 4 or F.src(args[0]) != tab:
+                            continue
+                        act = F.strip(args[2])
+                        if act['k'] != 'DeclRefExpr' or act['n'] not in ('HTAB_INSERT', 'HTAB_REPLACE'):
+                            continue
+                        el = F.strip(args[1])
+                        elname = F.src(el)
+                        for fld in sorted(owned):
+                            n += 1
+                            fresh = False
+                            for x in g.walk():
+                                if x['l'] > d['l']:
+                                    continue
+                                if x['k'] == 'CallExpr' and CRE.match(x.get('callee') or ''):
+                                    t = _target_of_create(g, x)
+                                    if t is not None and F.src(t) == '%s.%s' % (elname, fld):
+                                        fresh = True
+                                    elif t is not None and t['k'] == 'DeclRefExpr':
+                                        # created into a local that is then assigned to the field
+                                        for y in g.walk():
+                                            if y['k'] == 'BinaryOperator' and y['op'] == '=' and F.src(F.strip(y['c'][0])) == '%s.%s' % (elname, fld) \
+                                                    and F.src(F.strip(y['c'][1])) == t['n'] and y['l'] <= d['l']:
+                                                fresh = True
+                            run.ob(rule, (u, g.name, d['l'], fld), fresh, {'table': tab[-40:], 'free function': ff.name, 'site': '%s:%d %s' % (g.relfile(), d['l'], g.name),
+                                                                          'action': act['n'], 'owned field': fld, 'freshly created here': fresh})
+                            if not fresh:
+                                run.violation(rule, g, '%s of %s.%s' % (act['n'], elname, fld),
+                                              '%s stores an element into %s whose field %s is not freshly created in this function; %s '
+                                              'destroys that field of the element it replaces and of every element at finish, so shared '
+                                              'storage is used after free and freed twice' % (g.name, tab[-30:], fld, ff.name), line=d['l'])
+                        if whole:
+                            n += 1
+                            fresh = False
+                            if el['k'] == 'DeclRefExpr':
+                                for x in g.walk():
+                                    if x['k'] == 'BinaryOperator' and x['op'] == '=' and F.src(F.strip(x['c'][0])) == elname:
+                                        r = F.strip(x['c'][1])
+                                        if r['k'] == 'CallExpr' and r.get('callee') in ('MIR_malloc', 'MIR_calloc'):
+                                            fresh = True
+                            run.ob(rule, (u, g.name, d['l'], '*'), fresh, {'table': tab[-40:], 'site': '%s:%d %s' % (g.relfile(), d['l'], g.name),
+                                                                          'element allocated here': fresh})
+                            if not fresh:
+                                run.violation(rule, g, '%s of %s' % (act['n'], elname), '%s stores %s into %s, which frees its elements, but '
+                                              'the element is not allocated in this function' % (g.name, elname, tab[-30:]), line=d['l'])
+    return n
